@@ -50,4 +50,17 @@ CLAIMED["C17"] = {
           "Files mixing CR and LF irregularly are only covered by totality. The renderer defect (negative caret count) was fixed in c5cac3c.",
   "technique": "Coq proofs about the renderer model (bounds, line number, line text, caret for all files/positions) + exhaustive small-file correspondence; sampled differential check of parse-error positions",
 }
+CLAIMED["C01"] = {
+  "text": "Proof on an operational model of the event-driven validator for the rule-free fragment (objectValidator's shrinking set of required keys, unknown key -> 206, arrayValidator's "
+          "Child(min(i,last)) and 1203 on an empty example, literalValidator + checkNotAnEnum kind matrix incl. integer-for-float and null-with-nullable, anyNestedStructure), any depth "
+          "and size: C01_validate_iff_shape (validate = None <-> shape_ok, under no_nullable_container), C01_validate_shape_disagree_only_nullable (soundness needs no hypothesis), "
+          "C01_nullable_container_refuted (the excluded class is the known finding), C01_shape_ok_perm / C01_validate_perm (property order in the document is irrelevant), "
+          "C01_keys_optional_by_default (the option only marks unmarked keys optional), C01_literal_cases, C01_empty_array_only_empty, C01_array_elements_by_min_index. Axiom-free. "
+          "Tie: generated schemas to depth 5 with every optional/nullable/any mix under both configurations x conforming documents and typed mutations (drop/add/duplicate/reorder key, "
+          "int<->float, kind swap, null injection, array truncate/extend, escaped key spellings, payloads under any) + a small exhaustive universe; library verdict and error code vs the "
+          "extracted model, verdict vs shape_ok.",
+  "note": "Trusted: Coq kernel; extraction; the python printer of schemas/documents and the wire encoding parsed inside Coq; the model is recursive over the document value rather than event-driven "
+          "(same error code for the first failing event is checked by the correspondence, positions are not). Known finding C01-nullable-container is exactly the class excluded by the theorem's hypothesis.",
+  "technique": "Coq proof (operational validator model = declarative shape predicate, nested induction over documents) + generated/mutational correspondence on verdict and error code",
+}
 NOT_APPLICABLE = {}
